@@ -280,13 +280,13 @@ CHECKS = {
 
 # later extensions of generators and oracles (kept apart so that each addition reads as one sentence)
 RULE_ADDENDA = {
-    "C20": "TestC20EnumBurst: bursts of 8-24 connections (half refused at admission) that all end at the same moment on a lock-free transport, one server per burst, gauges compared after Serve has returned; 3000 bursts in quick, 40000 in thorough (schedule-dependent: makes a non-atomic increment/decrement pair likely to show, cannot force it). Sessions may begin at sequence number 255 (the reply would be 256), with or without a continuation. Connection histories also end in injected transport faults: a read that fails with a connection reset (at a packet boundary or inside a packet) and a connection whose every Write fails (the peer is gone when the reply is written), with or without a session left open.",
+    "C20": "A wait that runs into the watchdog inspects the goroutine dump: a server goroutine stuck on a lock inside tacquito while the harness is idle is the verdict server-goroutine-deadlocked (also in C07, C08 and every check using the scripted connection driver). TestC20EnumBurst: bursts of 8-24 connections (half refused at admission) that all end at the same moment on a lock-free transport, one server per burst, gauges compared after Serve has returned; 3000 bursts in quick, 40000 in thorough (schedule-dependent: makes a non-atomic increment/decrement pair likely to show, cannot force it). Sessions may begin at sequence number 255 (the reply would be 256), with or without a continuation. Connection histories also end in injected transport faults: a read that fails with a connection reset (at a packet boundary or inside a packet) and a connection whose every Write fails (the peer is gone when the reply is written), with or without a session left open.",
     "C06": "One later request in three of a multi-packet exchange changes the flag octet and/or the minor version: the reply mirrors the request it answers.",
     "C11": "Match conditions include an empty-string value (the attribute must be present and empty) and no values at all (the attribute must be present). One case in four has a second user entry of the same name for the other scope with rules of its own; questions are repeated from a second connection coming from that scope; one case in four loads a second policy into the running server in mid-case and judges later requests, sent on new connections, by it.",
-    "C13": "One case in four injects a shared-secret keychain whose lookup fails for some keys: an address hit by it may be refused or fall to the next matching configuration, but what it is bound to must be one configuration's own secret, handler and users. One case in three loads a second generated configuration into the running server and probes the same addresses again, judged by the second configuration.",
-    "C07": "Generated command entries include ones without an action key and with an action that is neither permit nor deny. One step in six is pipelined: a second request (acceptable, bad header, or even sequence number) on a session id of its own arrives in the same read. Sequence faults (even, replayed, jumping, restarted numbers) are aimed at sessions that are in the middle of an exchange one time in eight.",
+    "C13": "A third of the IPv6 probe addresses carry a zone (fe80::1%eth0), which is irrelevant to prefixes. One case in four injects a shared-secret keychain whose lookup fails for some keys: an address hit by it may be refused or fall to the next matching configuration, but what it is bound to must be one configuration's own secret, handler and users. One case in three loads a second generated configuration into the running server and probes the same addresses again, judged by the second configuration.",
+    "C07": "The scripted connection models a write deadline: one step in eight the harness' clock moves on before the reply is written, and a write on a connection with an armed write deadline then fails (on the unchanged tree none is armed). Generated command entries include ones without an action key and with an action that is neither permit nor deny. One step in six is pipelined: a second request (acceptable, bad header, or even sequence number) on a session id of its own arrives in the same read. Sequence faults (even, replayed, jumping, restarted numbers) are aimed at sessions that are in the middle of an exchange one time in eight.",
     "C10": "One case in three goes on after the history: a second generated configuration (and keychain) is loaded into the running server and a second history runs on a new connection from the same address, judged by the second configuration. Odd START packets (any action/type/service/minor combination) are mostly logins, optionally without data, and three times in four are followed by what a prompted client would send: the user name if it was missing, then the right password. Authenticator variants include a hash option that is a well-formed hash with something behind it.",
-    "C15": "A third configuration C (secret configurations renamed so that nothing can be built, no filters) takes part in the reloads, and every lookup round also probes 10.1.9.7, which A and B deny and C cannot serve: any answer but a refusal mixes two configurations.",
+    "C15": "The fixed policy's match lists contain empty and blank patterns. A third configuration C (secret configurations renamed so that nothing can be built, no filters) takes part in the reloads, and every lookup round also probes 10.1.9.7, which A and B deny and C cannot serve: any answer but a refusal mixes two configurations.",
     "C19": "One case in eight is a body whose announced lengths exceed what is present by exactly 256 (one-octet lengths) or 65536 (two-octet lengths), under each layout of the type. Thorough adds native coverage-guided fuzzing (FuzzC19Seen): the bytes the server sees after removing its pad are the fuzz input, seeded with well-formed requests one or two bytes short or long; same classifier oracle.",
     "C01": "Every value is also built the way callers build it - New<Type>(Set<Field>(...)...) for the header and the seven bodies - and must encode (bytes and error) exactly like the struct literal. Thorough adds FuzzC01Rapid: the same property with the generators' choices taken from a coverage-guided fuzzer's byte string (rapid.MakeFuzz).",
     "C02": "One long argument list in six has 255 octets in every argument (bodies beyond 65536 octets, which the decoders accept). The argument rules of the authorization and accounting bodies (2..255 / 0..255 octets of US-ASCII) are stated in the harness, not read off the library's Validate, and before a value is judged its arguments pass through the decoders of the other argument-carrying bodies. Over-long argument lists also come in a sparse form: 256+ arguments, each as short as the type allows. Thorough adds native fuzzing: FuzzC02DecodeFirst (any bytes, any codec, decode-first oracle) and FuzzC02Rapid (encode-first property driven by the fuzzer through rapid.MakeFuzz).",
